@@ -13,7 +13,7 @@ def load_rule_modules():
 
 PROPS = {
     "C01": {
-        "rules": ["C01.R1", "C01.R2", "C01.R3", "C01.R4", "C01.R5", "C01.R6", "C01.R8", "C01.R9", "C01.R10", "C03.R4", "C03.R5", "C07.R4", "C20.R2", "C18.R1", "C18.R2", "C13.R1", "C13.R2", "C13.R3", "C12.R3", "C12.R4", "C12.R7"],
+        "rules": ["C01.R1", "C01.R2", "C01.R3", "C01.R4", "C01.R5", "C01.R6", "C01.R8", "C01.R9", "C01.R10", "C03.R4", "C03.R5", "C07.R4", "C20.R2", "C18.R1", "C18.R2", "C13.R1", "C13.R2", "C13.R3", "C12.R3", "C12.R4", "C12.R7", "C01.R11"],
         "explanation": "Decides the integrity of the up-to-date decision (each rule a necessary condition of C01): history looked up and recorded under this rule's sources hash; sources hash covers every upstream hash in receiver order; remembered vector index-aligned with the targets; AlreadyCorrect only under a full Ticket equality with the current hash of the same file; command skipped only when no target needs rebuilding; what is recorded is what was read from disk after a successful command; producer/consumer sub-index agreement; a status of Recovered only where a restore happened; the mtime shortcut is exact. Not decided: byte equality with a from-scratch build over arbitrary histories (runtime state).",
     },
     "C02": {
@@ -21,7 +21,7 @@ PROPS = {
         "explanation": "Decides: at most one command execution per rule per build (no call site of the chain on a cycle or twice on a path); the Up-to-date path reaches no mutating System method; the command runs only on the true edge of needs-rebuild; NeedsRebuild only after the cache (and download) said NotThere; what was learned is persisted (history returned and written). Not decided: that a lookup hits on a given history.",
     },
     "C03": {
-        "rules": ["C03.R1", "C03.R2", "C03.R3", "C03.R4", "C03.R5", "C09.R3", "C12.R3", "C12.R4", "C12.R7"],
+        "rules": ["C03.R1", "C03.R2", "C03.R3", "C03.R4", "C03.R5", "C09.R3", "C12.R3", "C12.R4", "C12.R7", "C01.R11"],
         "explanation": "Decides the happens-before chain of C03 as it is visible in the code's shape: handler only on the Ok edge of the draining function; draining function returns Ok only after recv succeeded on every receiver; hashes are announced only after the handler returned Ok and are taken from its result by the sub-index stored with the sender. Not decided: correctness of the announced content, acyclicity of the runtime plan.",
     },
     "C04": {
@@ -33,8 +33,8 @@ PROPS = {
         "explanation": "Decides the channel protocol that makes build/clean terminate: exactly one packet per edge per return path, receivers drained completely, all spawns before any join and every handle joined. Not decided: acyclicity of the runtime wait-for graph (sorter output).",
     },
     "C06": {
-        "rules": ["C06.R1", "C06.R3", "C06.R3b", "C09.R3", "C12.R1", "C05.R1", "C05.R3", "C01.R2", "C18.R2"],
-        "explanation": "Non-interference argument: threads share nothing but channels and the file system (capture inventory); the only contended resource is the cache directory, on which no check-then-act may turn a lost race into a hard error; absence of a cache entry is never an error; channel results are consumed in receiver order, never arrival order; a restored file is never hashed through the mtime shortcut with the state of the file it replaced (which physical file - and so which mtime - a shared cache entry holds depends on the order in which sibling rules backed up identical content). Not decided: equality of final bytes.",
+        "rules": ["C06.R1", "C06.R3", "C06.R3b", "C09.R3", "C12.R1", "C05.R1", "C05.R3", "C01.R2", "C18.R2", "C01.R5"],
+        "explanation": "Non-interference argument: threads share nothing but channels and the file system (capture inventory); the only contended resource is the cache directory, on which no check-then-act may turn a lost race into a hard error; absence of a cache entry is never an error; channel results are consumed in receiver order, never arrival order; a rule whose restore lost the race for a shared entry is rebuilt (the needs-rebuild predicate is true if *any* target needs it); a restored file is never hashed through the mtime shortcut with the state of the file it replaced (which physical file - and so which mtime - a shared cache entry holds depends on the order in which sibling rules backed up identical content). Not decided: equality of final bytes.",
     },
     "C07": {
         "rules": ["C07.R1", "C07.R2", "C07.R3", "C07.R4", "C07.R5", "C01.R6", "C01.R9", "C01.R10", "C18.R1", "C18.R2"],
@@ -45,15 +45,15 @@ PROPS = {
         "explanation": "Decides: there is no deleting primitive (System trait method set, no std::fs outside real.rs); every rename destination is a content-named cache entry or a path proven vacant (backed up / found absent) on every path through all callers; every create_file targets a ruler state file or a vacant path, writes only go to created files; every non-AlreadyCorrect verdict is preceded by displacement; the state stored for a path describes the file at that path and is stored into the kept object (a stale pair would file a back-up under another file's name, on top of a genuine entry). Not decided: preservation of actual bytes on a real file system.",
     },
     "C09": {
-        "rules": ["C09.R1", "C09.R2", "C09.R3", "C09.R4", "C07.R3"],
+        "rules": ["C09.R1", "C09.R2", "C09.R3", "C09.R4", "C07.R3", "C12.R3", "C12.R4"],
         "explanation": "Decides the provenance of every path given to a mutating System call (FileInfo.path of a blob or ruler's own directory), where FileInfos come from (only take_blob of declared targets), which blob reaches which thread (its own node's targets; leaves only hashed), and that the goal parameter reaches the goal-restricted sorter. Not decided: that the sorter returns exactly the ancestors (C12).",
     },
     "C10": {
-        "rules": ["C10.R1", "C10.R2", "C10.R3", "C07.R1", "C09.R4", "C08.R1", "C02.R4"],
-        "explanation": "Decides: clean backs up every existing target of every node (complete loops, no skipping path, errors returned); a missing target with a remembered hash is restored by rename from the entry named by that hash; downloaded files get their remembered permission; clean honours its goal. Not decided: end-to-end behaviour on a real file system.",
+        "rules": ["C10.R1", "C10.R2", "C10.R3", "C07.R1", "C09.R4", "C08.R1", "C02.R4", "C18.R2", "C01.R10"],
+        "explanation": "Decides: clean backs up every existing target of every node (complete loops, no skipping path, errors returned); a missing target with a remembered hash is restored by rename from the entry named by that hash; downloaded files get their remembered permission; clean honours its goal; the remembered state clean names cache entries by always describes the file at that path (no stale (hash, mtime) pair after a restore). Not decided: end-to-end behaviour on a real file system.",
     },
     "C11": {
-        "rules": ["C11.R1", "C11.R2", "C11.R4", "C11.R5", "C04.R2", "C16.R2", "C01.R10", "C18.R1"],
+        "rules": ["C11.R1", "C11.R2", "C11.R4", "C11.R5", "C04.R2", "C16.R2", "C01.R10", "C18.R1", "C01.R11"],
         "explanation": "Decides: user data moves only by single renames (no open+create copy); history written only after a successful join, the file-state table only after all joins; state files read back by a strict decoder must be replaced atomically (temp + rename); directory initialisation completes a partial creation (each create_dir guarded by the absence of that same path); an opened state file is always decoded (an empty one is damage, not `no state`); since a kill can leave the file-state table behind the history, every remembered state is validated against the file (exact-mtime shortcut) and every stored state describes the file at its path. Not decided: the disk state at each individual crash point (fault enumeration).",
     },
     "C12": {
